@@ -108,7 +108,8 @@ class RobotHooks:
                 self.faults.append(ev)
                 ev.extra = "raised"
                 it.emit("fault", fn.path, node=node, callee=fn)
-                raise AbsRaise(it.make_exc("UserFault", fn.path), it.site(node))
+                # (the payload holds a list: exception arguments are arbitrary user data, not necessarily hashable)
+                raise AbsRaise(it.make_exc("UserFault", fn.path, ListV(["payload"])), it.site(node))
             r = Ext(f"{fn.path}()", "user", role="result", maybe_none=True, parent=fn)
             return r
         return NotImplemented
